@@ -20,6 +20,13 @@ func (d *PathDecoder) attrValueCompletionAtPos(ctx context.Context, attr *hclsyn
 	candidates := lang.NewCandidates()
 	candidates.IsComplete = true
 
+	if pos.Byte < attr.Expr.Range().Start.Byte && !isEmptyExpression(attr.Expr) {
+		// The position is between the equals sign and an already written
+		// expression, i.e. in front of the expression, not within it.
+		// Any edit range derived from that expression would be inverted.
+		return candidates, nil
+	}
+
 	if len(schema.CompletionHooks) > 0 {
 		candidates.IsComplete = false
 		candidates.List = append(candidates.List, d.candidatesFromHooks(ctx, attr, schema, outerBodyRng, pos)...)
@@ -122,8 +129,16 @@ func (d *PathDecoder) candidatesFromHooks(ctx context.Context, attr *hclsyntax.A
 		// position here.
 		editRng.End = pos
 	}
+	if editRng.Start.Byte > pos.Byte {
+		// an empty expression may begin after the position
+		// (with whitespace in between)
+		editRng.Start = pos
+	}
 	prefixRng := attr.Expr.Range()
 	prefixRng.End = pos
+	if prefixRng.Start.Byte > pos.Byte {
+		prefixRng.Start = pos
+	}
 	prefixBytes, _ := d.bytesFromRange(prefixRng)
 	prefix := string(prefixBytes)
 	prefix = strings.TrimLeft(prefix, `"`)
